@@ -14,7 +14,7 @@
     in the pattern), payload bytes arbitrary (boundary strings, CRLFCRLF, NUL allowed: the
     payload is cut out by length). *)
 From ZV Require Import Base.Bytes Dl.DlWrite Dl.Multipart Dl.FileLemmas Dl.DlProofs Dl.MpStream
-  Dl.DlInv Dl.DlPlace Dl.C05Final Dl.LiteralMatcher Dl.MpGrammar Dl.MpSafe Dl.LiteralProofs Dl.MpPlace Dl.MpFinal.
+  Dl.DlInv Dl.DlPlace Dl.C05Final Dl.LiteralMatcher Dl.MpGrammar Dl.MpSafe Dl.LiteralProofs Dl.MpPlace Dl.MpFinal Dl.Session Dl.SessionProofs.
 Local Open Scope N_scope.
 
 (** the recursion of dl_write_range always terminates within its fuel *)
@@ -230,6 +230,98 @@ Print Assumptions C05_transfer.
 (** non-vacuity of the multipart theorems: [FinalExample.ex_wf], [ex_req], [ex_datas], [ex_run],
     [ex_transfer] in Dl/MpFinal.v (a two-part body with extra header lines, upper-case
     keyword, double spaces, payload containing CR LF NUL; whole, byte-wise, uneven, quoted). *)
+
+(** * Sessions: several transfers on one zckDL (broken transfer -> zck_dl_reset -> retry)
+
+    [Dl/Session.v]: [dl_reset] transcribes zck_dl_reset field by field, [missing_ridx] is the
+    range index zck_get_missing_range builds from the current flags, [run_transfer] = reset,
+    new range, header lines, body fragments (the list may stop anywhere), [session] = any
+    number of transfers.  [sess_inv tab0 file0 x] (SessionProofs.v) is the C05 conclusion
+    relative to the table and file the session started with: same table shape; a flag never
+    returns to "unknown"; valid chunks stay valid; every chunk marked valid during the session
+    hashes to its digest in the file as it is now; every byte outside the extents of the
+    initially missing chunks is that of the initial file. *)
+
+(** the reset lemma: whatever a (broken) transfer left behind, after zck_dl_reset the state
+    meets the initial-state hypotheses of the single-transfer theorems for the table as it is
+    now and the freshly computed request *)
+Theorem C05_reset_reestablishes : forall H doff x,
+  let s := x_dl (dl_reset x) in
+  dl_wf2 doff (missing_ridx (d_tab s)) (d_tab s) s /\ verified H doff (d_tab s) s.
+Proof. exact reset_wf. Qed.
+Print Assumptions C05_reset_reestablishes.
+
+Theorem C05_reset_clears : forall x,
+  d_pos (x_dl (dl_reset x)) = 0 /\ d_wic (x_dl (dl_reset x)) = 0 /\
+  d_tgt (x_dl (dl_reset x)) = None /\ d_cur (x_dl (dl_reset x)) = None /\
+  x_mp (dl_reset x) = mkMp false 0 [] /\ x_boundary (dl_reset x) = None /\ x_rx (dl_reset x) = None.
+Proof. exact dl_reset_clears. Qed.
+Print Assumptions C05_reset_clears.
+
+(** for EVERY session — arbitrary header lines and body bytes, transfers cut anywhere, any
+    number of them, every regex oracle — the C05 conclusion holds at the end *)
+Theorem C05_session : forall H doff rx_comp rx_exec tab0 file0 ts x,
+  DlInv.disjoint_tab doff tab0 -> sess_inv H doff tab0 file0 x ->
+  sess_inv H doff tab0 file0 (session H doff rx_comp rx_exec x ts).
+Proof. exact session_inv. Qed.
+Print Assumptions C05_session.
+
+Theorem C05_session_start : forall H doff tab0 file0 fpos mp b rx,
+  sess_inv H doff tab0 file0 (mkX (mkDl false 0 0 None None None fpos file0 tab0) mp b rx).
+Proof. exact sess_inv_start. Qed.
+Print Assumptions C05_session_start.
+
+Theorem C05_session_valid_untouched : forall H doff rx_comp rx_exec tab0 file0 ts x t c,
+  DlInv.disjoint_tab doff tab0 -> sess_inv H doff tab0 file0 x ->
+  nth_error tab0 t = Some c -> c_valid c = VValid ->
+  let s := x_dl (session H doff rx_comp rx_exec x ts) in
+  (exists c', nth_error (d_tab s) t = Some c' /\ c_valid c' = VValid /\
+              c_start c' = c_start c /\ c_len c' = c_len c /\ c_digest c' = c_digest c) /\
+  fread (d_file s) (doff + c_start c) (N.to_nat (c_len c)) =
+  fread file0 (doff + c_start c) (N.to_nat (c_len c)).
+Proof. exact session_valid_untouched. Qed.
+Print Assumptions C05_session_valid_untouched.
+
+(** retry after ANY earlier session that set no error: the complete single-range response for
+    what is missing now, in any fragmentation, fills and validates every missing chunk (final
+    flags right), and the session invariant still holds *)
+Theorem C05_retry_plain : forall H doff rx_comp rx_exec tab0 file0 ts x0 datas frags,
+  DlInv.disjoint_tab doff tab0 -> sess_inv H doff tab0 file0 x0 ->
+  let x := session H doff rx_comp rx_exec x0 ts in
+  d_err (x_dl x) = false ->
+  let tab := d_tab (x_dl x) in let ridx := missing_ridx tab in
+  ridx <> [] -> datas_ok H ridx tab datas ->
+  Forall (fun fr => fr <> []) frags -> concat frags = concat datas ->
+  let x' := run_transfer H doff rx_comp rx_exec x (mkT [] frags) in
+  (forall k e d c, nth_error ridx k = Some e -> nth_error datas k = Some d -> nth_error tab (r_tgt e) = Some c ->
+      (exists c', nth_error (d_tab (x_dl x')) (r_tgt e) = Some c' /\ c_valid c' = VValid) /\
+      fread (d_file (x_dl x')) (doff + c_start c) (length d) = d) /\
+  (forall t, ~ In t (map r_tgt ridx) -> nth_error (d_tab (x_dl x')) t = nth_error tab t) /\
+  sess_inv H doff tab0 file0 x'.
+Proof. exact retry_after_session_plain. Qed.
+Print Assumptions C05_retry_plain.
+
+(** ... and the same for a well-formed multipart response (literal matcher) *)
+Theorem C05_retry_multipart : forall H doff x datas B parts (pre : bytes) quoted frags,
+  d_err (x_dl x) = false ->
+  let tab := d_tab (x_dl x) in let ridx := missing_ridx tab in
+  ridx <> [] -> DlInv.disjoint_tab doff tab -> datas_ok H ridx tab datas -> wf_body B parts datas ->
+  Forall (fun c => c <> 0) pre ->
+  (forall k, (k < length pre)%nat -> prefix_ic kw_boundary (skipn k (pre ++ kw_boundary)) = false) ->
+  B <> [] -> (quoted = false -> hd 0 B <> 32 /\ hd 0 B <> 34) -> len (ct_line pre B quoted) < two64 ->
+  Forall (fun fr => fr <> []) frags -> concat frags = mp_body B parts ->
+  let x' := run_transfer H doff lit_comp lit_exec x (mkT [ct_line pre B quoted] frags) in
+  (forall k e d c, nth_error ridx k = Some e -> nth_error datas k = Some d -> nth_error tab (r_tgt e) = Some c ->
+      (exists c', nth_error (d_tab (x_dl x')) (r_tgt e) = Some c' /\ c_valid c' = VValid) /\
+      fread (d_file (x_dl x')) (doff + c_start c) (length d) = d) /\
+  (forall t, ~ In t (map r_tgt ridx) -> nth_error (d_tab (x_dl x')) t = nth_error tab t).
+Proof. exact retry_place_mp. Qed.
+Print Assumptions C05_retry_multipart.
+
+(** non-vacuity and what the reset lemma buys: [SessionExample.broken_state], [retry_ok],
+    [retry_ok_thm], and [retry_bad_reset] / [bad_reset_not_wf] (a reset that forgets
+    write_in_chunk leaves the retry's bytes at the stale position, no chunk valid, and the
+    callback still reports success) in Dl/SessionProofs.v. *)
 
 (** Documentation of D14: with a zero-length entry in the range index the streaming law is
     FALSE for dl_write_range (one call drops the rest of the payload, two calls deliver it),
